@@ -164,12 +164,14 @@ func init() {
 		Rule: "1-16 holders each doing 1-6 Do ... done cycles with random hold times on one Worker, instance bodies that poll stop (stamping before each 'still open' check and after observing it closed) and either return at once or linger after stop, seeded delays at worker.wait.waited / worker.wait.stopping / worker.do.returned; " +
 			"directed: the watcher is held at worker.wait.waited (all holders done, before it re-locks) and at worker.wait.stopping (about to close stop) while a new Do arrives. oracle (offline over stamps): instance intervals disjoint and active<=1; no instance has stop open after a holder's Do returned and closed before that holder called done; " +
 			"no Do called after an instance observed stop returns before that instance exits; every holder sees (bounded) an instance with open stop after its Do returned; every instance is stopped and exits once nobody holds it. " +
+			"early-return: instance functions that return on their own while holders are outstanding (a watcher goroutine keeps polling the stop channel it was given): still never two bodies at once, no stop channel closed while a holder that saw it open is outstanding, every stop channel closed once nobody holds it. " +
 			"non-trivial = more than one instance was started (the last done raced new Dos); distinct = distinct (holders, instances, directed site) signatures",
 		Assumptions: []string{"instance functions return only after observing stop closed (so an instance cannot end while held by its own choice)"},
 		Families: []core.Family{
 			{Name: "random", N: core.TierN(4000, 160000), Batch: 100, Run: c17Random},
 			{Name: "directed", N: core.TierN(60, 3200), Batch: 20, Run: c17Directed},
 			{Name: "hammer", N: core.TierN(16, 800), Batch: 2, Run: c17Hammer},
+			{Name: "early-return", N: core.TierN(200, 8000), Batch: 50, Run: c17EarlyReturn},
 		},
 	})
 }
@@ -303,4 +305,134 @@ func c17Hammer(c *core.Ctx) {
 		c.Nontrivial()
 	}
 	c.Sig("hammer", g, len(r.instances))
+}
+
+// earlyBody is an instance function that returns on its own after d (or when stopped, whichever is first); a watcher
+// goroutine keeps polling the stop channel it was given, so that the stamps used by check() exist for it as well.
+func (r *w17Run) earlyBody(d time.Duration) func(stop <-chan struct{}) {
+	return func(stop <-chan struct{}) {
+		inst := &w17Instance{}
+		inst.start = core.Now()
+		if n := r.active.Add(1); n > 1 {
+			r.problem("two-instances", "%d instances of the worker function are running at once", n)
+		}
+		r.mu.Lock()
+		inst.id = len(r.instances)
+		r.instances = append(r.instances, inst)
+		r.mu.Unlock()
+		watched := make(chan struct{})
+		go func() {
+			defer close(watched)
+			for i := 0; ; i++ {
+				a := core.Now()
+				select {
+				case <-stop:
+					so := core.Now()
+					r.mu.Lock()
+					inst.stopObserved = so
+					r.mu.Unlock()
+					return
+				default:
+					inst.lastOpen.Store(a)
+				}
+				if i%8 == 7 {
+					time.Sleep(5 * time.Microsecond)
+				} else {
+					spin(2)
+				}
+				if i > 4000000 {
+					return // never stopped: reported by the final check
+				}
+			}
+		}()
+		t := time.NewTimer(d)
+		select {
+		case <-stop:
+		case <-t.C:
+		}
+		t.Stop()
+		r.mu.Lock()
+		inst.exit = core.Now()
+		r.mu.Unlock()
+		r.active.Add(-1)
+	}
+}
+
+func c17EarlyReturn(c *core.Ctx) {
+	r := &w17Run{}
+	p := c.RandomPerturb(worker17Sites)
+	defer p.Stop()
+	holders := 1 + c.Rng.IntN(6)
+	var wg sync.WaitGroup
+	for h := 0; h < holders; h++ {
+		h := h
+		seed := c.Rng.Uint64()
+		wg.Add(1)
+		go func() {
+			defer wg.Done()
+			rng := newRand(seed)
+			for i := 0; i < 1+rng.IntN(4); i++ {
+				hd := &w17Hold{holder: h}
+				hd.doCall = core.Now()
+				done := r.w.Do(r.earlyBody(time.Duration(rng.IntN(300)) * time.Microsecond))
+				hd.doRet = core.Now()
+				time.Sleep(time.Duration(rng.IntN(400)) * time.Microsecond)
+				hd.doneCall = core.Now()
+				done()
+				hd.doneRet = core.Now()
+				r.mu.Lock()
+				r.holds = append(r.holds, hd)
+				r.mu.Unlock()
+				if rng.IntN(2) == 0 {
+					time.Sleep(time.Duration(rng.IntN(200)) * time.Microsecond)
+				}
+			}
+		}()
+	}
+	if !core.AwaitDone(core.Go(wg.Wait), 30000) {
+		c.Violate("do-blocked", "holders did not finish")
+		c.SetDump(core.DumpAll())
+		return
+	}
+	// every stop channel handed to an instance is closed once nobody holds the worker
+	if !core.WaitUntil(5000, func() bool {
+		r.mu.Lock()
+		defer r.mu.Unlock()
+		for _, in := range r.instances {
+			if in.stopObserved == 0 || in.exit == 0 {
+				return false
+			}
+		}
+		return r.active.Load() == 0
+	}) {
+		r.mu.Lock()
+		n := 0
+		for _, in := range r.instances {
+			if in.stopObserved == 0 {
+				n++
+			}
+		}
+		r.mu.Unlock()
+		c.Violate("instance-not-stopped", "%d instance(s) were never told to stop although every holder has called done (their functions had returned on their own)", n)
+		return
+	}
+	r.mu.Lock()
+	for _, pr := range r.probs {
+		c.Violate(pr.Key, "%s", pr.Msg)
+	}
+	for _, h := range r.holds {
+		for _, in := range r.instances {
+			if in.lastOpen.Load() > h.doRet && in.stopObserved != 0 && in.stopObserved < h.doneCall {
+				c.Violate("stopped-while-held", "instance %d's stop channel was open at stamp %d (after holder %d's Do returned at %d) and observed closed at %d, before the holder called done (%d)", in.id, in.lastOpen.Load(), h.holder, h.doRet, in.stopObserved, h.doneCall)
+			}
+		}
+	}
+	n := len(r.instances)
+	r.mu.Unlock()
+	c.Op("do", len(r.holds))
+	c.Op("instance", n)
+	if n > 1 {
+		c.Nontrivial()
+	}
+	c.Sig("early", holders, len(r.holds), n)
 }
